@@ -124,7 +124,8 @@ def body(ctx, q):
     for r in recs:
         got[r["got"]] = got.get(r["got"], 0) + 1
     ctx.log("driver: %d behaviours, %d connections, outcomes %s, rotation=%s handler_visible=%s" % (len(behs), len(recs), got, meta[0]["rotation"], meta[0]["handler_visible"]))
-    if len(recs) < len(exps) * 9 // 10:
+    burst = [r for r in recs if r["beh"] >= len(behs)]
+    if len(recs) - len(burst) < len(exps) * 9 // 10:
         raise vlib.Inconclusive("driver recorded %d connections of %d" % (len(recs), len(exps)))
     unobs = [r for r in recs if r["got"] == "unobserved" and not r["released"]]
     if len(unobs) > len(recs) // 5:
@@ -144,7 +145,7 @@ def body(ctx, q):
         bad = cur[l - 1] if l else None
         ctx.violation("X05 %s %s" % (inv, klass(bad)),
                       "what a client observed of the real NTS-KE server violates %s: %s" % (inv, bad),
-                      {"record": bad, "behaviour": behs[bad["beh"]] if bad else None})
+                      {"record": bad, "behaviour": behs[bad["beh"]] if bad and bad["beh"] < len(behs) else "burst of simultaneous complete requests"})
         nval = 0
         if not bad:
             break
@@ -167,11 +168,12 @@ def body(ctx, q):
     ctx.cov.update(traces_validated_against_impl=nval, evaluations=len(recs), distinct_nontrivial=len({(r["acc"], r["end"], r["got"], r["k0"], r["k1"], len(r["cookies"])) for r in recs}),
                    outcomes=got, predicted=want, cookies_opened=ncook, success_responses=len(succ),
                    answered_while_another_connection_was_silent=sum(1 for r in succ if any(x["beh"] == r["beh"] and x["stalled"] for x in recs)),
-                   unobserved=len(unobs), exhaustive=True,
+                   unobserved=len(unobs), exhaustive=True, burst_connections=len(burst),
                    exhaustive_configs="NtsKeServer_exh/exh1/live + 8 fault variants (exh2/exh3/deep/deep2/deep3 in the thorough tier)",
                    rule="TLC -simulate walks of NtsKeServerGen (3 connections, <= 4 records each over 14 record kinds, wrong declared "
                         "lengths, truncation inside a header / a body / at a boundary by close_notify or bare FIN, client close, silent "
-                        "clients, provider rotations) played by scripted TLS 1.3 clients against the real StartNTSKEServerIP",
+                        "clients, provider rotations) played by scripted TLS 1.3 clients against the real StartNTSKEServerIP; then bursts of 6 complete requests whose End of Message records are written "
+                        "at the same moment (handlers' Export/Build steps interleaving)",
                    samples=succ[:1] + [r for r in recs if r["got"] == "error"][:2] + [r for r in recs if r["stalled"]][:1] + illok[:1])
     ctx.assumptions += [
         "client-side moves are imposed in the generated order; the server's own steps cannot be (the model's 'await' marks where "
